@@ -189,10 +189,40 @@ def memo_reset(fn):
     return form
 
 
+ARITH_OPS = ['+', '-', '*', '#', '/', '%', ':', '&', '|', '^', '~', '_']
+
+
+def arith_forms(te, op_chars_of_test, P):
+    """the statement `_t_eval` runs for each arithmetic op character: the body of the `if op == '<c>':` /
+    `elif op == '<c>':` branch that names it (one statement).  `cur = cur + arg` is Python's *binary*
+    operator (a new object for every builtin container); `cur += arg` or a call of `operator.iadd`
+    would be the in-place one."""
+    forms = {}
+    for n in ast.walk(te):
+        if not isinstance(n, ast.If):
+            continue
+        chars = op_chars_of_test(n.test) or []
+        if len(chars) == 1 and chars[0] in ARITH_OPS and len(n.body) == 1:
+            forms.setdefault(chars[0], ' '.join(ast.unparse(n.body[0]).split()))
+    out = []
+    for c in ARITH_OPS:
+        if c not in forms:
+            P.add("_t_eval: no `if op == %r:` branch with a single statement (arithmetic dispatch not recognised)" % c)
+            return []
+        out.append((c, forms[c]))
+    return out
+
+
 def extract(ctx):
     P = ctx['P']
     tree = ctx['src_tree']('core.py')
     find_def = ctx['find_def']
+    te = find_def(tree, '_t_eval')
+    t_arith = []
+    if te is None:
+        P.add('_t_eval not found')
+    else:
+        t_arith = arith_forms(te, ctx['op_chars_of_test'], P)
     from_text = find_def(tree, 'from_text', cls='Path')
     shape = []
     max_cache = 0
@@ -288,4 +318,5 @@ def extract(ctx):
               ('memoTouchedOutsideRegistry', 'List String', memo_writers),
               ('memoKeyType', 'String', memo_key_type),
               ('scopeVarsInitShape', 'List String', sv_shape),
-              ('varsGlomitShape', 'List String', vg_shape)])]
+              ('varsGlomitShape', 'List String', vg_shape),
+              ('tArithForms', 'List (String × String)', t_arith)])]
